@@ -10,12 +10,13 @@ from .. import solver
 PARTIAL = [
     "accuracy of LSODA (relative error <= 5e-3 + 1e-3 (N + 2 strain)) and the coupling of the F block to the texture blocks through "
     "LSODA's global step/error control are runtime facts: validated against an independent RK4 reference on generated scenarios, not proved",
-    "for time/position dependent L the exact-solution facts (det F, semigroup) are proved for constant L only (matrix exponential); "
-    "the general statement is validated numerically",
+    "for time/position dependent L: existence/uniqueness of the exact solution and split == whole are proved for constant and piecewise "
+    "constant L only (matrix exponential, Properties/C06Analytic.lean); the determinant clause det F = exp(int tr L) det F0 is proved for "
+    "any time-dependent L with continuous trace (det_solution_timedep); the rest is validated numerically",
 ]
 ASSUMPTIONS = ["reference solution: classical RK4 with 4000 substeps in float64 (independent of SciPy)"]
 TRUSTED = ["harness/solver.py scenario driver, RK4 reference integrator, LSODA recorder"]
-# EXTRA_LEAN_MODULES = ("Properties.C06Analytic",)
+EXTRA_LEAN_MODULES = ("Properties.C06Analytic",)
 
 
 def _tol(N, strain):
